@@ -227,8 +227,8 @@ fn build_sweeps(prop: &str, thorough: bool) -> Vec<Sweep> {
     if thorough && !jit {
       for op in 0..=255u8 {
         if op == 0xCB {
-          for cb in [0x00u8, 0x46, 0x86, 0xFE].iter() {
-            add(Kind::PcAll, [0xCB, *cb, 0], 2, 256);
+          for cb in 0..=255u8 {
+            add(Kind::PcAll, [0xCB, cb, 0], 2, 256);
           }
         } else {
           let (c, l) = enc(op);
